@@ -271,7 +271,15 @@ pub static OPS: &[OpDef] = &[
         }
         let m = base.len();
         let mut after: Vec<Vec<usize>> = vec![vec![]; m + 1];
-        for k in (0..m - 1).step_by(20) {
+        // (the copied triangles are lower triangles well inside the grid, no two of them adjacent: the result
+        // stays Ok - an extra triangular ring per copy - and depends on WHICH of the three occurrences survives)
+        let q = ((g - 2) / 2).max(1);
+        for j in 0..g * g {
+            let (x, y) = (1 + 2 * (j % q), 1 + 3 * (j / q));
+            if y + 1 >= g || x + 1 >= g {
+                break;
+            }
+            let k = 2 * (y * g + x);
             state = state.wrapping_mul(6364136223846793005).wrapping_add(1442695040888963407);
             after[k + 1 + (state >> 33) as usize % (m - k - 1)].push(k);
         }
